@@ -51,6 +51,16 @@ Theorem C18_fmt_w_mode_preserved : forall fmt1 parts join target tmp fs sched ki
 Proof. exact fmt_w_mode_preserved. Qed.
 Print Assumptions C18_fmt_w_mode_preserved.
 
+(* the protocol in force cleans up: when the process has exited (was not killed), the temp path
+   holds what it held before (nothing, if the temp file had been created), unless the clean-up
+   unlink itself failed *)
+Theorem C18_fmt_w_no_temp_left : forall fmt1 parts join target tmp fs sched kill n,
+  let r := run fmt1 parts join Current CmdWrite target tmp fs sched kill in
+  r_status r = Exit n ->
+  files (r_fs r) tmp = files fs tmp \/ exists e, In (CUnlink tmp, RErr e) (r_trace r).
+Proof. exact fmt_w_no_temp_left. Qed.
+Print Assumptions C18_fmt_w_no_temp_left.
+
 (* ---- regression lemmas about the protocol before the fix (write_atomically_before_fix) ---- *)
 (* it did NOT preserve the mode: a 0644 file ends with 0600 ... *)
 Theorem C18_fmt_w_mode_preserved_before_fix_refuted :
@@ -167,3 +177,16 @@ Example C18_ex_check :
   r_status (run ex_fmt evy_parts evy_join Current CmdCheck ex_target ex_tmp (ex_fs [120; 121; 10]%N) [] 100) = Exit 0 /\
   r_status (run ex_fmt evy_parts evy_join Current CmdCheck ex_target ex_tmp (ex_fs [120; 32; 121; 10]%N) [] 100) = Exit 1.
 Proof. vm_compute. split; reflexivity. Qed.
+
+(* regression: before the fix an ENOSPC left the temp file behind although the process exited normally *)
+Theorem C18_fmt_w_no_temp_left_before_fix_refuted :
+  exists sched kill,
+    let r := run ex_fmt evy_parts evy_join BeforeFix CmdWrite ex_target ex_tmp (ex_fs [120; 32; 121; 10]%N) sched kill in
+    r_status r = Exit 1 /\ files (ex_fs [120; 32; 121; 10]%N) ex_tmp = None /\ files (r_fs r) ex_tmp <> None /\
+    forall e, ~ In (CUnlink ex_tmp, RErr e) (r_trace r).
+Proof.
+  exists [OOk; OOk; OOk; OOk; OOk; OOk; OCount 2; OErr ENOSPC], 100%nat.
+  vm_compute. repeat split; try discriminate.
+  intros e H. repeat (destruct H as [H|H]; [discriminate|]). exact H.
+Qed.
+Print Assumptions C18_fmt_w_no_temp_left_before_fix_refuted.
